@@ -333,9 +333,14 @@ func (t *Task) runWithLocking() {
 	// wait for module start
 	if !t.module.Online() {
 		if t.module.OnlineSoon() {
-			// wait
-			<-t.module.StartCompleted()
-		} else {
+			// wait for the start to complete - or to fail, in which case the
+			// module's context is cancelled
+			select {
+			case <-t.module.StartCompleted():
+			case <-t.module.Stopping():
+			}
+		}
+		if !t.module.Online() && !t.module.OnlineSoon() {
 			// abort, module will not come online
 			t.lock.Lock()
 			t.executing = false
